@@ -80,7 +80,7 @@ func runScriptGuarded(id string, lines []string, out *bufio.Writer) {
 		w.Flush()
 		out.WriteString(buf.String())
 		mu.Unlock()
-	case <-time.After(20 * time.Second):
+	case <-time.After(4 * time.Second):
 		mu.Lock()
 		w.Flush()
 		out.WriteString(buf.String())
